@@ -19,6 +19,7 @@ PROP = "C14"
 SEGMENTS = {"quick": 120, "thorough": 300}
 MAX_Q = 5
 MAX_POOL = 8
+MAX_GATES = 1500
 
 ONE_Q = ["I", "X", "Y", "Z", "H", "S", "T", "P"]
 TWO_Q = ["CX", "CZ", "CP", "SWAP"]
@@ -759,6 +760,12 @@ def run_segment(plan, ctx, detail=False, table=None):
                     break
         if violation is not None:
             break
+        # self-composition doubles gate lists: entries that outgrow the model are dropped
+        for j in [j for j, qc in objs.items() if len(qc.gates) > MAX_GATES]:
+            objs.pop(j, None)
+            model.pop(j, None)
+            sfp.pop(j, None)
+            probe("dropped_too_many_gates")
     objs.clear()
     model.clear()
     nt = bool(touched_after_use)
